@@ -21,6 +21,8 @@ class EvMonWorld(World):
                    "second_instance_in_process", "source_also_in_another_event_map",
                    "domain_reset")
     assumptions = (
+        "a reset of the clock domain returns the component to its initial state (the state the "
+        "property calls initial is the state after reset, as for every Amaranth register)",
         "Amaranth's Python RTL simulator executes the elaborated netlist faithfully",
         "'pending becomes set the cycle after its source triggers' is read as a registered update "
         "on the clock edge ending the trigger cycle",
@@ -36,7 +38,8 @@ class EvMonWorld(World):
     def gen_config(self, rng, prop):
         n = rng.choice([0, 1, 1, 2, 3, 4, 5, 8, 12, 17, 33])
         return {"srcs": [rng.choice(TRIGGERS) for _ in range(n)],
-                "trigger": rng.choice(TRIGGERS), "decoy": int(rng.chance(0.1))}
+                "trigger": rng.choice(TRIGGERS), "decoy": int(rng.chance(0.1)),
+                "omit": int(rng.chance(0.3))}
 
     def gen_ops(self, rng, config, prop):
         n = len(config["srcs"])
@@ -79,7 +82,9 @@ class EvMonWorld(World):
     def run(self, config, ops, props, stats, hist):
         from amaranth_soc import event
         n_cfg = len(config["srcs"])
-        srcs = [event.Source(trigger=tr, path=(f"s{i}",)) for i, tr in enumerate(config["srcs"])]
+        omit = config.get("omit")
+        srcs = [event.Source(path=(f"s{i}",), **hw.spelled(omit, {"trigger": "level"}, trigger=tr))
+                for i, tr in enumerate(config["srcs"])]
         em = event.EventMap()
         other_map = event.EventMap()
         order = []           # model: sources in order of first addition
@@ -157,7 +162,8 @@ class EvMonWorld(World):
             hist.rec("map", k, len(order))
 
         dut = hw.must_accept("C13", f"event.Monitor({len(order)} sources, trigger={config['trigger']})",
-                             event.Monitor, em, trigger=config["trigger"])
+                             event.Monitor, em,
+                             **hw.spelled(omit, {"trigger": "level"}, trigger=config["trigger"]))
         check_map(step + 1)     # constructing the monitor must not renumber anything
         if config.get("decoy"):
             em2 = event.EventMap()
